@@ -1,5 +1,6 @@
 """Statements, calls, loops and the per-function verification driver."""
 import ast
+import os
 import time
 
 import z3
@@ -17,6 +18,7 @@ from pv.values import (VMap, V, VInt, VBool, VStr, VNONE, VNoneT, VTuple, VRef, 
 
 # external functions whose result is an arbitrary value of a kind (no other effect on the modelled state)
 EXTERNAL = {'time.time': 'int'}
+TRACE = bool(os.environ.get('PV_TRACE'))
 
 
 class ClassSet:
@@ -142,6 +144,8 @@ class Verifier(Engine):
                 return self.re_group(st, fv.m, args)
             if k in ('re_end', 're_start'):
                 return self.re_pos(st, fv.m, args, k[3:])
+            if k == 're_span':
+                return VTuple([self.re_pos(st, fv.m, args, 'start'), self.re_pos(st, fv.m, args, 'end')])
             if k == 'constdict_get':
                 # <constant dict>.get(key, default) with a symbolic key: one of the values or the default -- which one is
                 # left open (sound over-approximation); only class-valued dicts are supported
@@ -335,9 +339,12 @@ class Verifier(Engine):
         ref = VRef(r, name)
         for u in ('$isinst_' + k.__name__ for k in classes.table().values()):
             pass
-        # exact class facts for isinstance tests
+        # exact class facts for isinstance tests -- for the classes of the same hierarchy (sharing a base other than
+        # object); membership in unrelated hierarchies is left open (sound, and keeps the path condition small)
+        fam = {b for b in cls.__mro__ if b is not object}
         for k in classes.table().values():
-            st.pc.append(z3.Function('$isinst_' + k.__name__, I, B)(r) == z3.BoolVal(issubclass(cls, k)))
+            if issubclass(cls, k) or fam & {b for b in k.__mro__ if b is not object}:
+                st.pc.append(z3.Function('$isinst_' + k.__name__, I, B)(r) == z3.BoolVal(issubclass(cls, k)))
         st.pc.append(z3.Function('$exact_' + name, I, B)(r))
         if hasattr(cls, '_fields') and issubclass(cls, tuple):
             # NamedTuple: positional / keyword fields, stored as fields of the new object
@@ -573,6 +580,12 @@ class Verifier(Engine):
         post_state = st.fork()
         post_state.env = dict(env)
         post_state.env['result'] = res
+        if getattr(self, '_yf', None) is not None:
+            # `yield from` of a generator: its accumulators get their final values (fresh), its bound environment is
+            # handed back for the treatment of the yielded values
+            for a_ in ctr.yield_acc:
+                post_state.env[a_] = VInt(z3.Int(fresh_name('tot_' + a_)))
+            self._yf.update(ctr=ctr, env=dict(env), post_env=post_state.env)
         old_state = pre_state
         # exceptions the callee may raise: the postcondition describes normal return only, so it is assumed under
         # "no exception escaped"; each exceptional exit sees the havocked state and what raises_ensures says of `exc`
@@ -721,6 +734,10 @@ class Verifier(Engine):
 
     def exec_stmt(self, st, stmt):
         self.paths += 1
+        if TRACE and self.paths % 200 == 0:
+            import sys as _sys
+            print('[trace] %s: %d statements, %d obligations, line %s' % (self.qual.rsplit('.', 1)[-1], self.paths, len(self.obs),
+                  getattr(stmt, 'lineno', '?')), file=_sys.stderr, flush=True)
         if self.paths > MAX_PATHS or time.time() > self.deadline:
             raise OutOfSubset('path budget exceeded')
         self.cur_site = self.stmt_ids.get(id(stmt), 0)
@@ -743,7 +760,7 @@ class Verifier(Engine):
             self.do_yield(st, v)
             return outs + [Outcome('ok', st)]
         if isinstance(s.value, ast.YieldFrom):
-            raise OutOfSubset('yield from')
+            return self.do_yield_from(st, s.value.value)
         self.ev.ev(st, s.value)
         outs = self.split_pend(st)
         return outs + [Outcome('ok', st)]
@@ -766,6 +783,62 @@ class Verifier(Engine):
             for f in new:
                 st.assume(f)
             st.env[name] = VInt(st.env[name].t + d.t)
+
+    def do_yield_from(self, st, call):
+        """yield from g(args) for a generator g under contract: g's contract is applied as for a call (precondition, frame,
+        postcondition at exhaustion); every value it yields satisfies g's yield_ensures and must satisfy this generator's
+        own; an accumulator of this generator advances by the final value of g's accumulator with the same defining
+        expression (g proves that total in its own postcondition)."""
+        if not isinstance(call, ast.Call):
+            raise OutOfSubset('yield from a non-call')
+        pre_accs = {n: st.env[n] for n in self.ctr.yield_acc}
+        self._yf = {}
+        try:
+            self.ev.ev(st, call)
+            info = self._yf
+        finally:
+            self._yf = None
+        outs = self.split_pend(st)
+        ctr2 = info.get('ctr')
+        if ctr2 is None or ctr2.kind != 'generator':
+            raise OutOfSubset('yield from something that is not a contracted generator')
+        # this generator's accumulators: matched by defining expression
+        by_expr = {e: n for n, e in ctr2.yield_acc.items()}
+        mid = {}
+        for n, e in self.ctr.yield_acc.items():
+            if e not in by_expr:
+                raise OutOfSubset('yield from %s: it has no accumulator defined as %r' % (ctr2.qual, e))
+            tot = info['post_env'][by_expr[e]].t
+            part = z3.Int(fresh_name('part_' + n))
+            st.assume(z3.And(0 <= part, part <= tot)) if False else None
+            mid[n] = (part, tot)
+        # a generic yielded value, at a generic moment of g's run
+        y = fresh(ctr2.yields or 'ref', 'yf')
+        g = st.fork()
+        genv = dict(info['env'])
+        genv['y'] = y
+        for n2 in ctr2.yield_acc:
+            genv[n2] = VInt(z3.Int(fresh_name('at_' + n2)))
+        g.env = genv
+        if isinstance(y, VRef):
+            g.pc.append(y.t != 0) if False else None
+        for txt in ctr2.yield_ensures:
+            t, new = self.spec_eval(g, txt, ctr2)
+            g.pc += new
+            g.pc.append(t)
+        h = g.fork()
+        h.env = dict(st.env)
+        for n, e in self.ctr.yield_acc.items():
+            h.env[n] = VInt(pre_accs[n].t + genv[by_expr[e]].t)
+        for j, txt in enumerate(self.ctr.yield_ensures):
+            t, new = self.spec_eval(h, txt, extra_env={'y': y})
+            k_ = h.fork()
+            k_.pc += new
+            self.oblige('yieldfrom[%d]@s%s' % (j, self.cur_site), k_, t)
+        for n, (part, tot) in mid.items():
+            st.env[n] = VInt(pre_accs[n].t + tot)
+        st.nyield = z3.Int(fresh_name('nyield'))
+        return outs + [Outcome('ok', st)]
 
     def st_Return(self, st, s):
         v = self.ev.ev(st, s.value) if s.value is not None else VNONE
